@@ -222,10 +222,25 @@ pub fn ext_pool() -> Vec<Ext> {
         Ext::Other(0xdada, vec![]),
     ]
 }
-/// supported_versions alphabet: at least one known non-GREASE member (a list holding only GREASE or
-/// draft codes is left to the implementation: the specification text does not settle it)
+/// supported_versions alphabet: every permutation of every subset (size 1..3) of four known versions and two
+/// GREASE values that holds at least one known version (a list holding only GREASE or draft codes is left to
+/// the implementation: the specification text does not settle it); plus "absent"
 pub fn supvers() -> Vec<Option<Vec<u16>>> {
-    vec![None, Some(vec![0x0304]), Some(vec![0x0303]), Some(vec![0x0303, 0x0302]), Some(vec![0x0a0a, 0x0304, 0x0303]), Some(vec![0x0302, 0x0303]), Some(vec![0x0301]), Some(vec![0x0303, 0x0304, 0xfafa])]
+    let base = [0x0301u16, 0x0302, 0x0303, 0x0304, 0x0a0a, 0xfafa];
+    let mut v: Vec<Option<Vec<u16>>> = vec![None];
+    for sub in subsets(&base, 1, 3) {
+        if sub.iter().all(|x| is_grease(*x)) {
+            continue;
+        }
+        for p in perms(&sub) {
+            v.push(Some(p));
+        }
+    }
+    v
+}
+/// the small list used where supported_versions is crossed with large cipher families
+pub fn supvers_small() -> Vec<Option<Vec<u16>>> {
+    vec![None, Some(vec![0x0304]), Some(vec![0x0303]), Some(vec![0x0303, 0x0302]), Some(vec![0x0a0a, 0x0304, 0x0303]), Some(vec![0x3a3a, 0x0303, 0x0302]), Some(vec![0x0301]), Some(vec![0x0303, 0x0304, 0xfafa])]
 }
 
 pub fn families(thorough: bool) -> Vec<Hello> {
@@ -242,8 +257,24 @@ pub fn families(thorough: bool) -> Vec<Hello> {
         with_grease.insert(1, 0x1a1a);
         cipher_lists.push(with_grease);
     }
+    let few: Vec<Vec<u16>> = vec![vec![0x1301], vec![0x0a0a, 0xc02f, 0x1301], vec![0x002f, 0xcaca]];
     for legacy in [0x0300u16, 0x0301, 0x0302, 0x0303, 0x0304, 0x0305, 0x0200] {
         for sv in supvers() {
+            for cs in &few {
+                for with_sni in [false, true] {
+                    let mut exts = vec![];
+                    if with_sni {
+                        exts.push(Ext::Sni(s("a.b")));
+                    }
+                    exts.push(Ext::Other(23, vec![]));
+                    if let Some(x) = &sv {
+                        exts.push(Ext::SupVer(x.clone()));
+                    }
+                    v.push(Hello { legacy, ciphers: cs.clone(), exts, ..Hello::default() });
+                }
+            }
+        }
+        for sv in supvers_small() {
             for cs in &cipher_lists {
                 let mut exts = vec![Ext::Sni(s("a.b"))];
                 if let Some(x) = &sv {
@@ -301,7 +332,7 @@ pub fn route_family() -> Vec<Hello> {
     let mut v = vec![];
     let pool = ext_pool();
     for legacy in [0x0301u16, 0x0303, 0x0305] {
-        for sv in supvers() {
+        for sv in supvers_small() {
             for cs in [vec![0x1301u16], vec![0x0a0a, 0xc02f, 0x1301], (0..101).map(|i| 0x0100 + i).collect()] {
                 for base in [vec![], vec![pool[0].clone(), pool[1].clone()], vec![pool[3].clone(), pool[15].clone(), pool[4].clone(), pool[0].clone(), pool[9].clone()]] {
                     let mut exts = base.clone();
